@@ -31,6 +31,12 @@ fn parse_one(bytes: &[u8]) -> Result<Packet, String> {
 
 /// the core oracle on a canonically framed packet
 fn check_canonical(rec: &mut Rec, tag: u8, body: &[u8], input: &[u8], what: &str, legacy: bool) -> CaseResult {
+    check_packet(rec, tag, body, input, what, legacy, false)
+}
+
+/// `noncanonical`: the input uses a legal but non-minimal inner length form, so byte-identical
+/// re-encoding is not required (truthful lengths and parse(serialize(v)) == v still are)
+fn check_packet(rec: &mut Rec, tag: u8, body: &[u8], input: &[u8], what: &str, legacy: bool, noncanonical: bool) -> CaseResult {
     let p = match parse_one(input) {
         Ok(p) => p,
         Err(_) => {
@@ -49,7 +55,7 @@ fn check_canonical(rec: &mut Rec, tag: u8, body: &[u8], input: &[u8], what: &str
     if let Err(e) = p.to_writer(&mut out) {
         return fail("C05:accepted-packet-fails-to-serialize", format!("{what}: {e}"));
     }
-    if out != input {
+    if out != input && !noncanonical {
         let fd = out.iter().zip(input.iter()).position(|(a, b)| a != b).unwrap_or(out.len().min(input.len()));
         let sig = if tag == 5 || tag == 7 {
             // locate the S2K usage octet: the first byte after the public part differing 255 -> 254
@@ -267,7 +273,8 @@ fn generated_case(t: &mut Tape, rec: &mut Rec, keys: &[KeyParts]) -> CaseResult 
         wire::new_packet(g.tag, &g.body)
     };
     rec.describe(|| format!("{} ({} body bytes{})", g.what, g.body.len(), if legacy { ", legacy header" } else { "" }));
-    check_canonical(rec, g.tag, &g.body, &input, &g.what, legacy)
+    let noncanonical = g.labels.iter().any(|l| l == "noncanonical-length-form");
+    check_packet(rec, g.tag, &g.body, &input, &g.what, legacy, noncanonical)
 }
 
 /// API-built and API-mutated composite objects
